@@ -222,6 +222,10 @@ func (e *Engine) libCall(st *State, fr *Frame, name string, args []Val, c *ssa.C
 		if !fm.IsConst() || !pr.IsConst() || !bs.IsConst() {
 			fail("AppendFloat with symbolic format")
 		}
+		if bs.Uint() == 32 && f.Op == "f32to64" {
+			// a float32 widened exactly: identified by its 32 bits
+			f = ZeroExt(f.Args[0], 64)
+		}
 		return one(e.sliceOfText(st, []Piece{{K: "float", T: f, Fmt: byte(fm.Uint()), Prec: int(pr.signedVal().Int64()), Size: int(bs.Uint())}}, false))
 	case "math.Float32frombits", "math.Float64frombits":
 		return one(args[0])
@@ -275,6 +279,22 @@ func (e *Engine) libCall(st *State, fr *Frame, name string, args []Val, c *ssa.C
 		t, _ := e.textOf(st, args[1].(SliceV))
 		e.bufAppend(st, id, t...)
 		return one(args[1].(SliceV).Len, ErrV{NonNil: tFalse, ID: BVu(0, 64)})
+	case "bytes.TrimRight":
+		// library contract: the result is the prefix s[:k] where k is the least length such that every byte of
+		// s[k:] belongs to the cutset (single-byte literal cutsets only)
+		s := args[0].(SliceV)
+		ct, ok := e.textOf(st, args[1].(SliceV))
+		if !ok || len(ct) != 1 || ct[0].K != "lit" || len(ct[0].S) != 1 {
+			fail("bytes.TrimRight with a cutset that is not a one-byte literal")
+		}
+		cb := BVu(uint64(ct[0].S[0]), 8)
+		k := Sym(fresh("trimlen"), 64)
+		zero := BVu(0, 64)
+		st.assumeT(And(SLe(zero, k), SLe(k, s.Len)))
+		st.assumeT(Implies(Not(Eq(k, zero)), Not(Eq(st.readByte(s, Sub(k, BVu(1, 64))), cb))))
+		j := Sym(fresh("j"), 64)
+		st.assumeT(Forall(j, Implies(And(SLe(k, j), SLt(j, s.Len)), Eq(Select(st.arrOf(s.Base), Add(s.Off, j), 8), cb))))
+		return one(SliceV{Base: s.Base, Off: s.Off, Len: k, Cap: s.Cap, Elem: s.Elem})
 	case "time.Unix":
 		return one(TimeV{Sec: asTerm(args[0])})
 	case "(time.Time).Local":
